@@ -106,6 +106,13 @@ Theorem C06_source_registry_search : ltac:(let t := type of SrcTie5P.bsearch_tie
 Proof. exact SrcTie5P.bsearch_tie. Qed.
 
 
+(* ---- source tie, sixth wave: ContextInstances::get and ContextInstances::remove (position + swap_remove, the group deleted
+   when empty; a failed `expect` is None) regenerated from src/input_context.rs equal Model/Registry.reg_get / reg_remove, Leibniz ---- *)
+From BEI Require Proofs.SrcTie6P.
+Theorem C06_source_registry_remove : ltac:(let t := type of SrcTie6P.ContextInstances_remove_tie in exact t).
+Proof. exact SrcTie6P.ContextInstances_remove_tie. Qed.
+
+
 Print Assumptions C06_bsearch_position.
 Print Assumptions C06_insert_keeps_order.
 Print Assumptions C06_any_history.
@@ -124,3 +131,4 @@ Print Assumptions C06_app_judgement_transfer.
 Print Assumptions C06_source_registry_add.
 Print Assumptions C06_source_registry_index.
 Print Assumptions C06_source_registry_search.
+Print Assumptions C06_source_registry_remove.
